@@ -498,6 +498,13 @@ func (z *ZodFile[T, R]) extractFileForEngine(input any) (any, bool) {
 // extractFilePtrForEngine extracts a pointer to file from input for engine.ParseComplex.
 func (z *ZodFile[T, R]) extractFilePtrForEngine(input any) (*any, bool) {
 	if ptr, ok := input.(*any); ok {
+		// A nil *any is a nil input; any other *any must point at a file.
+		if ptr == nil {
+			return nil, true
+		}
+		if _, isFile := extractFile(*ptr); !isFile {
+			return nil, false
+		}
 		return ptr, true
 	}
 
